@@ -306,6 +306,9 @@ type request struct {
 	// BlockAfter: in a history, the body reader blocks after this many lines (0 = before the
 	// first line, for gzip after the header) until the history releases it; -1 = never
 	BlockAfter int    `json:"block_after"`
+	// CtxCancelled: the request arrives with an already cancelled context (client went away): ProcessDocuments
+	// may leave at the rate limiter (`case <-ctx.Done()`) or go on; the body is invalid either way
+	CtxCancelled bool `json:"ctx_cancelled,omitempty"`
 	BodyHex    string `json:"body_hex"`
 	BodyText string    `json:"body_text"`
 	Docs     []docMeta `json:"docs,omitempty"`
@@ -340,6 +343,9 @@ type record struct {
 	Key        string       `json:"key,omitempty"`
 	Hist       []histItem   `json:"hist,omitempty"`
 	ObsList    []*observation `json:"obs_list,omitempty"`
+	// classes of own.go: the input as it goes into cases.jsonl / a replay, and what was observed
+	Input map[string]any `json:"input,omitempty"`
+	Impl  any            `json:"impl,omitempty"`
 }
 
 // one request of a history: role = empty (accepted, no surviving document) | held (blocked inside
@@ -397,6 +403,11 @@ func (e *env) serveHold(rq *request, emit func(record), hold, bodyHold *holdCtl)
 	}
 	rd = cr
 	hr := httptest.NewRequest(http.MethodPost, "/_bulk", rd)
+	if rq.CtxCancelled {
+		cctx, ccancel := context.WithCancel(hr.Context())
+		ccancel()
+		hr = hr.WithContext(cctx)
+	}
 	if hdr != "" {
 		hr.Header.Set("Content-Encoding", hdr)
 	}
@@ -1221,8 +1232,10 @@ func newHistory(e *env, r *rng.R) []histItem {
 	g := &gen{r: r, e: e, feat: map[string]bool{}}
 	cfg := r.Intn(len(driftCfgs))
 	var roles []string
+	// 0-2 requests that end early: accepted without surviving document, or FAILED (body reader breaks, unparsable
+	// document line, cancelled context); every one of them must give its pooled objects back exactly once
 	for k := r.Intn(3); k > 0; k-- {
-		roles = append(roles, "empty")
+		roles = append(roles, rng.Pick(r, []string{"empty", "fail-read", "fail-json", "fail-ctx"}))
 	}
 	heldRole := "held"
 	if r.Bool() {
@@ -1242,9 +1255,19 @@ func newHistory(e *env, r *rng.R) []histItem {
 			kind = "empty"
 		}
 		body := g.plainBody(kind)
+		if role == "fail-json" || role == "fail-ctx" {
+			body = append(body, []byte(actionLines[r.Intn(2)]+"\n"+rng.Pick(r, []string{`{"a":}`, `nul`, `{"a":tru}`})+"\n")...)
+			if r.Bool() {
+				body = append(body, g.plainBody("small")...)
+			}
+		}
 		now := baseNow.Add(time.Duration(r.Intn(3600_000)) * time.Millisecond)
 		rq := &request{MaxDoc: e.maxDoc, Cfg: cfg, NowNs: now.UnixNano(), BodyHex: hex.EncodeToString(body),
 			BodyText: fmt.Sprintf("%q", body), Class: "overlap-history", body: body, BlockAfter: -1}
+		if role == "fail-read" {
+			rq.Fault = rng.Pick(r, []string{"unexpected-eof", "generic", "timeout"})
+		}
+		rq.CtxCancelled = role == "fail-ctx"
 		// gzip and plain requests mixed; a gzip body that blocks is flushed per line
 		rq.Gzip = r.Chance(2, 3)
 		if rq.Gzip {
@@ -1338,6 +1361,11 @@ func runHistory(e *env, h []histItem, emit func(record)) bool {
 	}
 	emit(record{Kind: "case", Coq: "CHist [" + strings.Join(terms, "; ") + "]", Class: "overlap-history", Nontrivial: true, Hist: h, ObsList: obs})
 	emit(record{Kind: "count", Key: fmt.Sprintf("history:requests-%d", len(h))})
+	for _, it := range h {
+		if strings.HasPrefix(it.Role, "fail-") {
+			emit(record{Kind: "count", Key: "history:starts-with-" + it.Role})
+		}
+	}
 	return bad
 }
 
@@ -1467,6 +1495,22 @@ func worker(spec workerSpec, out io.Writer) {
 		}
 		return
 	}
+	if len(spec.Modes) == 1 && spec.Modes[0] == "paths" {
+		pe := newPathEnv()
+		for i := 0; i < spec.N; i++ {
+			runPath(pe, genPath(r), emit)
+		}
+		return
+	}
+	if len(spec.Modes) == 1 && spec.Modes[0] == "single" {
+		se := newSingleEnv()
+		defer se.close()
+		flushing := func(rc record) { emit(rc); bw.Flush() } // the store may take the process down: nothing may be lost
+		for i := 0; i < spec.N; i++ {
+			runSingle(se, genSingle(r, i), flushing)
+		}
+		return
+	}
 	if len(spec.Modes) == 1 && spec.Modes[0] == "overlap" {
 		e := newEnvN(spec.MaxDoc, 8)
 		for i := 0; i < spec.N; i++ {
@@ -1519,6 +1563,9 @@ func plan(tier string, seed uint64) []workerSpec {
 		{0, 200 * k, nil, 0, 0}, // meta codec
 		{64, 40 * k, []string{"overlap"}, 0, 0}, {48, 60 * k, []string{"overlap"}, 0, 1}, {256, 20 * k, []string{"overlap"}, 0, 2},
 		{40, 200 * k, []string{"fault"}, 0, 0}, {200, 100 * k, []string{"fault"}, 0, 0},
+		// exit paths of ProcessDocuments (pools drained before/after: one P, GC off); single-binary mode (one P: the
+		// compressor a bulk puts back is the one the next bulk gets)
+		{4096, 250 * k, []string{"paths"}, 0, 1}, {4096, 40 * k, []string{"single"}, 0, 1},
 	}
 	if tier == "thorough" {
 		specs = append(specs, workerSpec{4096, 300, mix, 0, 0}, workerSpec{33, 300 * k, fr, 0, 0}, workerSpec{257, 200 * k, mix, 0, 0})
@@ -1567,6 +1614,29 @@ func main() {
 			bw.Flush()
 			return
 		}
+		if spec.N == -3 { // replay of one ProcessDocuments call (exit-path class)
+			var ps pathSpec
+			if err := json.NewDecoder(os.Stdin).Decode(&ps); err != nil {
+				panic(err)
+			}
+			bw := bufio.NewWriter(os.Stdout)
+			enc := json.NewEncoder(bw)
+			runPath(newPathEnv(), &ps, func(rc record) { enc.Encode(rc) })
+			bw.Flush()
+			return
+		}
+		if spec.N == -4 { // replay of a single-mode schedule
+			var sp singleSpec
+			if err := json.NewDecoder(os.Stdin).Decode(&sp); err != nil {
+				panic(err)
+			}
+			bw := bufio.NewWriter(os.Stdout)
+			enc := json.NewEncoder(bw)
+			se := newSingleEnv()
+			defer se.close()
+			runSingle(se, &sp, func(rc record) { enc.Encode(rc); bw.Flush() })
+			return
+		}
 		if spec.N < 0 { // replay of one request read from stdin
 			var rq request
 			if err := json.NewDecoder(os.Stdin).Decode(&rq); err != nil {
@@ -1606,6 +1676,8 @@ func main() {
 	if err != nil {
 		panic(err)
 	}
+	// input of the single-mode case that was running when its process ended (set by "begin", cleared by its result)
+	var pendingBegin map[string]any
 	consume := func(data []byte) {
 		dec := json.NewDecoder(bytes.NewReader(data))
 		for {
@@ -1613,10 +1685,24 @@ func main() {
 			if err := dec.Decode(&rc); err == io.EOF {
 				break
 			} else if err != nil {
+				if pendingBegin != nil {
+					break // the process died in the middle of a record
+				}
 				panic(err)
 			}
 			switch rc.Kind {
+			case "begin":
+				pendingBegin = rc.Input
 			case "case":
+				if rc.Input != nil {
+					pendingBegin = nil
+					w.Add(rc.Coq, rc.Class, rc.Nontrivial, rc.Input, rc.Impl)
+					if *replay != "" {
+						js, _ := json.Marshal(rc.Impl)
+						fmt.Printf("replay: class=%s observed=%s\n", rc.Class, js)
+					}
+					continue
+				}
 				if rc.Hist != nil {
 					w.Add(rc.Coq, rc.Class, rc.Nontrivial, map[string]any{"history": rc.Hist}, rc.ObsList)
 					if *replay != "" {
@@ -1631,6 +1717,14 @@ func main() {
 					fmt.Printf("replay: class=%s status=%d created=%d calls=%d docs=%q mids=%v\n", rc.Class, rc.Obs.Status, rc.Obs.Created, rc.Obs.Calls, rc.Obs.Docs, rc.Obs.Mids)
 				}
 			case "viol":
+				if rc.Input != nil {
+					pendingBegin = nil
+					w.Violate(rc.Fp, rc.What, rc.Input)
+					if *replay != "" {
+						fmt.Printf("replay: VIOLATION %s: %s\n", rc.Fp, rc.What)
+					}
+					continue
+				}
 				if rc.Hist != nil {
 					w.Violate(rc.Fp, rc.What, map[string]any{"history": rc.Hist})
 					if *replay != "" {
@@ -1644,6 +1738,8 @@ func main() {
 			}
 		}
 	}
+	died := map[string]string{}
+	var diedMu sync.Mutex
 	child := func(spec workerSpec, stdin []byte) []byte {
 		js, _ := json.Marshal(spec)
 		cmd := exec.Command(self, "-worker", string(js))
@@ -1660,10 +1756,35 @@ func main() {
 			if len(tail) > 2000 {
 				tail = tail[len(tail)-2000:]
 			}
+			if (len(spec.Modes) == 1 && spec.Modes[0] == "single") || spec.N == -4 {
+				// the embedded store takes the process down when it cannot read a queued block (logger.Panic in the
+				// index worker): reported as a violation of the case that was running
+				diedMu.Lock()
+				died[string(js)] = fmt.Sprintf("%v; stderr tail: %s", err, tail)
+				diedMu.Unlock()
+				return so.Bytes()
+			}
 			fmt.Fprintf(os.Stderr, "worker %s failed: %v\n%s\n", js, err, tail)
 			os.Exit(3)
 		}
 		return so.Bytes()
+	}
+	// output of a child that may have died (single-mode): the case that was running becomes a violation
+	consumeChild := func(spec workerSpec, data []byte) {
+		pendingBegin = nil
+		consume(data)
+		js, _ := json.Marshal(spec)
+		if why, ok := died[string(js)]; ok {
+			if pendingBegin == nil {
+				fmt.Fprintf(os.Stderr, "worker %s failed outside a case: %s\n", js, why)
+				os.Exit(3)
+			}
+			w.Violate("single-mode:store-died", "the embedded store took the process down while indexing accepted bulks (single-binary mode): "+why, pendingBegin)
+			if *replay != "" {
+				fmt.Printf("replay: VIOLATION single-mode:store-died: %s\n", why)
+			}
+		}
+		pendingBegin = nil
 	}
 	if *replay != "" {
 		b, err := os.ReadFile(*replay)
@@ -1676,11 +1797,15 @@ func main() {
 					Input struct {
 						Request json.RawMessage `json:"request"`
 						History json.RawMessage `json:"history"`
+						Path    json.RawMessage `json:"path"`
+						Single  json.RawMessage `json:"single"`
 					} `json:"input"`
 				} `json:"case"`
 				Input struct {
 					Request json.RawMessage `json:"request"`
 					History json.RawMessage `json:"history"`
+					Path    json.RawMessage `json:"path"`
+					Single  json.RawMessage `json:"single"`
 				} `json:"input"`
 			} `json:"replay"`
 		}
@@ -1694,6 +1819,24 @@ func main() {
 		hist := rp.Replay.Case.Input.History
 		if hist == nil {
 			hist = rp.Replay.Input.History
+		}
+		pathIn, singleIn := rp.Replay.Case.Input.Path, rp.Replay.Case.Input.Single
+		if pathIn == nil {
+			pathIn = rp.Replay.Input.Path
+		}
+		if singleIn == nil {
+			singleIn = rp.Replay.Input.Single
+		}
+		if pathIn != nil || singleIn != nil {
+			spec, in := workerSpec{N: -3, Procs: 1}, pathIn
+			if singleIn != nil {
+				spec, in = workerSpec{N: -4, Procs: 1}, singleIn
+			}
+			consumeChild(spec, child(spec, in))
+			if err := w.Close(); err != nil {
+				panic(err)
+			}
+			return
 		}
 		if hist != nil {
 			// the history is repeated in a fresh process (which Ps the requests run on is up to the scheduler)
@@ -1711,7 +1854,7 @@ func main() {
 	}
 	specs := plan(*tier, *seed)
 	outs := make([][]byte, len(specs))
-	sem := make(chan struct{}, 6)
+	sem := make(chan struct{}, 4)
 	var wg sync.WaitGroup
 	for i := range specs {
 		wg.Add(1)
@@ -1723,8 +1866,8 @@ func main() {
 		}(i)
 	}
 	wg.Wait()
-	for _, o := range outs {
-		consume(o)
+	for i, o := range outs {
+		consumeChild(specs[i], o)
 	}
 	runGen(w, rng.New(*seed^0x47454E10), *tier == "thorough")
 	w.Extra["buffer_sizes"] = func() []int {
